@@ -63,9 +63,7 @@ func (fc *FnCtx) execInstr(fr *frame, st *State, in ssa.Instruction, b *ssa.Basi
 		fc.oblige(st, "makeslice", and(app("<=", "0", ln.T), app("<=", ln.T, cp.T)), x.Pos(), "make([]T, len, cap): 0 <= len <= cap")
 		et := x.Type().Underlying().(*types.Slice).Elem()
 		arr := fc.newRef(st)
-		k := fc.elemKey(et)
-		zeroArr := fc.sorts.ZeroArr(et)
-		st.heap[k] = fc.sc.Define(fc.hv[k].name, fc.hv[k].sort, app("store", fc.heapGet(st, k), arr, zeroArr))
+		fc.setArr(st, et, arr, fc.sorts.ZeroArr(et))
 		fc.regs[x] = fc.mkVal(app("mk_slice", arr, "0", ln.T, cp.T), x.Type())
 	case *ssa.MakeMap:
 		m := x.Type().Underlying().(*types.Map)
@@ -221,9 +219,7 @@ func (fc *FnCtx) execAlloc(st *State, x *ssa.Alloc) {
 		fc.regs[x] = fc.mkVal(r, x.Type())
 	case *types.Array:
 		arr := fc.newRef(st)
-		k := fc.elemKey(u.Elem())
-		zeroArr := fc.sorts.ZeroArr(u.Elem())
-		st.heap[k] = fc.sc.Define(fc.hv[k].name, fc.hv[k].sort, app("store", fc.heapGet(st, k), arr, zeroArr))
+		fc.setArr(st, u.Elem(), arr, fc.sorts.ZeroArr(u.Elem()))
 		// pointer to array: represented by the array id
 		v := fc.mkVal(arr, x.Type())
 		fc.regs[x] = v
@@ -638,8 +634,7 @@ func (fc *FnCtx) execConvert(st *State, x *ssa.Convert) Val {
 		if sl, ok := to.(*types.Slice); ok {
 			// []byte(s): fresh array holding the bytes of s
 			arr := fc.newRef(st)
-			k := fc.elemKey(sl.Elem())
-			st.heap[k] = fc.sc.Define(fc.hv[k].name, fc.hv[k].sort, app("store", fc.heapGet(st, k), arr, app("chars", v.T)))
+			fc.setArr(st, sl.Elem(), arr, app("chars", v.T))
 			return fc.mkVal(app("mk_slice", arr, "0", app("slen", v.T), app("slen", v.T)), x.Type())
 		}
 	case tok && tb.Info()&types.IsString != 0:
